@@ -5,7 +5,8 @@ surface model Model/Surf.lean), which is run bit-exactly at `Float` against the 
 `CalcSafetyDistance`, `SimpleUnitTracker::safety`, `RectArrayTracker::safety`, `UnitInserter`
 flags and `OrangeTrackView::find_safety` by harness/safety.cc.
 Helper lemmas: Lemmas/SafetyBasic.lean, SafetyForms.lean, SafetyDist.lean, SafetyLevels.lean,
-SafetyRay.lean.
+SafetyRay.lean, SafetyMax.lean; Generated/SafetySource.lean is rewritten from the current
+source by tools/gen/safety.py before every build.
 
 Conventions: a safety value is an `Option ℝ` with `none = +∞` (`numeric_limits::infinity()`);
 `OLe o b` : `o` is finite and `≤ b`;  `ONonneg o` : `o` is `+∞` or `≥ 0`;
@@ -16,7 +17,7 @@ at a sphere centre / on the axis of a centred cylinder the code deliberately ret
 real code was run there: finding `safety-inf-at-center`); `LevelXf.Iso` = rotation matrices
 are orthonormal (documented precondition of `Transformation`).
 -/
-import CelerVerif.Lemmas.SafetyRay
+import CelerVerif.Lemmas.SafetyMax
 
 namespace CelerVerif.Safety
 open CelerVerif CelerVerif.Surf
@@ -190,6 +191,47 @@ theorem find_safety_ball (levels : List (Level ℝ)) (x y : Vec3 ℝ)
   obtain ⟨v, hv, hle⟩ := min_over_levels levels x y hiso h
   exact absurd (hy v hv) (not_lt.mpr hle)
 
+/-! ### the `find_safety(max_step)` overload (the one Urban MSC calls) -/
+
+/-- exact relation guaranteed by the code as written: the overload ignores `max_step` and
+    returns `find_safety()` (every level is visited, no early exit) -/
+theorem findSafetyMax_eq (m : ℝ) (levels : List (Level ℝ)) (x : Vec3 ℝ) :
+    findSafetyMax m levels x = findSafety levels x := rfl
+
+/-- ★ for EVERY `max_step` the overload is non-negative and conservative at every nesting level
+    (in particular whenever the true distance is < `max_step`), and capped at `max_step` it
+    agrees with the no-argument overload: min(result, max_step) = min(find_safety(), max_step) -/
+theorem findSafetyMax_conservative (m : ℝ) (levels : List (Level ℝ)) (x y : Vec3 ℝ)
+    (hiso : ∀ l ∈ levels, l.xf.Iso) (h : SeparatedAtSomeLevel levels x y) :
+    OLe (findSafetyMax m levels x) (dist3 x y) ∧ ONonneg (findSafetyMax m levels x)
+      ∧ CapEq (findSafetyMax m levels x) (findSafety levels x) m :=
+  ⟨min_over_levels levels x y hiso h, findSafetyFrom_nonneg levels x (fun _ hv => by cases hv), rfl⟩
+
+/-- what the consumers need of ANY implementation `r` of the overload (they only compare the
+    result against `max_step`): if min(r, max_step) = min(find_safety(), max_step), then `r` is
+    conservative for every boundary, at any level, that is closer than `max_step`.  (An
+    implementation that skips a level whose boundary is nearer than `max_step` violates the
+    premise; the check's oracle evaluates exactly this premise on the real code.) -/
+theorem max_overload_contract_suffices (r : Option ℝ) (m : ℝ) (levels : List (Level ℝ))
+    (x y : Vec3 ℝ) (hiso : ∀ l ∈ levels, l.xf.Iso) (hcap : CapEq r (findSafety levels x) m)
+    (h : SeparatedAtSomeLevel levels x y) (hd : dist3 x y < m) : OLe r (dist3 x y) :=
+  capped_conservative r _ m _ hcap (min_over_levels levels x y hiso h) hd
+
+/-! ### tie to the current source text (Generated/SafetySource.lean) -/
+
+/-- the model's per-class `simple_safety()` table is the one written in src/orange/surf/*.hh -/
+theorem simple_safety_table_matches_source (s : Surface ℝ) :
+    simpleSafety s = generatedSimple s := by
+  cases s <;> rfl
+
+/-- every consumer call site of `find_safety` under src/celeritas and src/accel passes exactly
+    one argument, i.e. calls the `max_step` overload, and that overload forwards to
+    `find_safety()` (body pattern-checked by the translator) -/
+theorem consumers_call_max_overload :
+    (∀ c ∈ Generated.Safety.consumerCalls, c.2.2.1 = 1) ∧ Generated.Safety.consumerCalls ≠ []
+      ∧ Generated.Safety.findSafetyMaxForwards = true := by
+  refine ⟨by decide, by decide, rfl⟩
+
 /-! ### non-vacuity -/
 
 -- a unit-normal plane, a sphere with r² ≥ 0
@@ -261,6 +303,12 @@ example : ∃ (inst : Num Unit), @isNaN Unit inst () = true :=
      neg := id, abs := id, sqrt := id, exp := id, log := id, sin := id, cos := id,
      fma := fun _ _ _ => (), lt := fun _ _ => false, le := fun _ _ => false,
      eq := fun _ _ => false, ofNat := fun _ => (), ofSci := fun _ _ _ => (), inf := () }, rfl⟩
+-- a capped agreement with a finite full safety below the cap
+example : CapEq (some 1) (some 1) 5 := rfl
+example : ¬ CapEq (some 8.695) (some 1) 5 := by
+  unfold CapEq; rw [fminO_some, fminO_some]
+  simp only [Option.some.injEq]
+  rw [min_eq_right (by norm_num), min_eq_left (by norm_num)]; norm_num
 -- a volume with a cone face
 example : ∃ f ∈ [Surface.coneAligned .z (⟨0, 0, 0⟩ : Vec3 ℝ) 1, Surface.sphereCentered 4],
     simpleSafety f = false := ⟨Surface.coneAligned .z ⟨0, 0, 0⟩ 1, by simp, rfl⟩
